@@ -203,6 +203,29 @@ def attemptNext (cfg : Cfg) (b : Batch) (k : Nat) : Outcome → Sender
   | .perm => .completing b .permanent
   | .temp => if k + 1 < cfg.maxAttempts then .sending b (k + 1) else .completing b .exhausted
 
+def Sender.isSending : Sender → Bool
+  | .sending _ _ => true
+  | _ => false
+
+def Sender.isCompleting : Sender → Bool
+  | .completing _ _ => true
+  | _ => false
+
+/-- when may a call that passed enter() return before batchMessages with result r -/
+def earlyOk (r : Res) (x : Call) : Bool :=
+  match r with
+  | .nil => x.msgs.isEmpty
+  | .ctxErr => x.cancelled
+  | .other => x.mayFail
+  | _ => false
+
+/-- when may a call waiting for its batches return with result r -/
+def leaveOk (s : State) (r : Res) (x : Call) : Bool :=
+  match r with
+  | .ctxErr => x.cancelled
+  | .nil | .writeErrors => x.msgs.all (fun mk => s.isCompleted mk.1) && callResult s x = r
+  | _ => false
+
 /-! ### the transition function -/
 
 def step (cfg : Cfg) (s : State) : Event → Option State
@@ -224,12 +247,7 @@ def step (cfg : Cfg) (s : State) : Event → Option State
       some (updCalls s c (·.phase = .entered) fun x => { x with held := false })
     else none
   | .early c r =>
-    if hasCall s c (fun x => x.phase = .entered &&
-        (match r with
-         | .nil => x.msgs.isEmpty
-         | .ctxErr => x.cancelled
-         | .other => x.mayFail
-         | _ => false)) then
+    if hasCall s c (fun x => x.phase = .entered && earlyOk r x) then
       some (updCalls s c (·.phase = .entered) fun x => { x with phase := .left r })
     else none
   | .batch c =>
@@ -257,14 +275,14 @@ def step (cfg : Cfg) (s : State) : Event → Option State
       some (updPWs s i (fun p => p.sender = .idle && p.queue.isEmpty && !p.opn) fun p => { p with sender := .exited })
     else none
   | .attempt i o =>
-    if hasPW s i (fun p => match p.sender with | .sending _ _ => true | _ => false) then
+    if hasPW s i (·.sender.isSending) then
       some (updPWs s i (fun _ => true) fun p =>
         match p.sender with
         | .sending b k => { p with sender := attemptNext cfg b k o }
         | _ => p)
     else none
   | .complete i =>
-    match s.writers.find? (fun p => p.pid = i && (match p.sender with | .completing _ _ => true | _ => false)) with
+    match s.writers.find? (fun p => p.pid = i && p.sender.isCompleting) with
     | some p =>
       match p.sender with
       | .completing b why =>
@@ -273,11 +291,7 @@ def step (cfg : Cfg) (s : State) : Event → Option State
       | _ => none
     | none => none
   | .leave c r =>
-    if hasCall s c (fun x => x.phase = .waiting &&
-        (match r with
-         | .ctxErr => x.cancelled
-         | .nil | .writeErrors => x.msgs.all (fun mk => s.isCompleted mk.1) && callResult s x = r
-         | _ => false)) then
+    if hasCall s c (fun x => x.phase = .waiting && leaveOk s r x) then
       some (updCalls s c (·.phase = .waiting) fun x => { x with phase := .left r })
     else none
   | .ret c =>
